@@ -10,13 +10,13 @@ Model of the CONSTRUCTORS and of the circuit registry (C14; edzed/block.py, edze
 The state is a heap of objects, each with its class (name, the names of the classes it is an instance of, what
 `getattr` finds in the class) and its `__dict__` in the order of the assignments, plus the module global
 `_current_circuit` and the registry of `Const`.  Classes are identified by their `__name__`.
-Functions are written in direct style; `EdzedProofs/CtorTie.lean` proves them equal to the programs
-`tools/py2lean_ctor.py` generates from the current source (`Gen/TranslatedCtor.lean`).
+Functions are written in direct style; `EdzedProofs/BlkCtorTie.lean` proves them equal to the programs
+`tools/py2lean_blkctor.py` generates from the current source (`Gen/TranslatedBlkCtor.lean`).
 -/
-import EdzedModel.CtorPy
+import EdzedModel.BlkCtorPy
 
-namespace Edzed.Ctor
-open CtorPy
+namespace Edzed.BlkCtor
+open BlkCtorPy
 
 /-- what `getattr(obj, name)` finds in the class of the object -/
 inductive Member where
@@ -406,4 +406,4 @@ def constCall (w : World) (cls : String) (v : Arg Nat) : World × Except PyExc N
   if v.isUndef then (w, .error "ValueError")
   else (w.setAttr o "_output" (.arg v), .ok o)
 
-end Edzed.Ctor
+end Edzed.BlkCtor
